@@ -221,20 +221,97 @@ def streamVerdict (colour : Bool) (levels : List Nat) (cs : Nat → Chunks) (bs 
       .fail "H: styles/resets differ from one style per highlighted group followed by a reset" (sigPrefix ++ "highlight")
     else .ok
 
+/-! ### several appenders in one process
+
+Clause (W) and (C) speak about "a console appender" and "its target stream": each appender is
+judged by ITS OWN target's terminal status, the environment and its own tty_only flag. Other
+appenders, the order in which they were built and the order of the builder calls have no say. -/
+
+/-- what one appender of a plan must contribute after one record per level -/
+def expectedItem (g : Global) (it : PlanItem) (levels : List Nat) (cs : Nat → Chunks) : Streams :=
+  if shouldWrite (g.isatty it.target) it.ttyOnly then
+    Streams.on it.target
+      (levels.flatMap fun l => specEncode (colourEnabled g.env (g.isatty it.target)) l (cs l))
+  else {}
+
+/-- what must be on stdout / stderr after the whole plan: the appenders' contributions in order -/
+def expectedPlan (g : Global) (items : List PlanItem) (levels : List Nat) (cs : Nat → Chunks) : Streams :=
+  items.foldr (fun it acc => (expectedItem g it levels cs).append acc) {}
+
+def itemF2Region (g : Global) (it : PlanItem) : Bool :=
+  it.ttyOnly && (colourEnabled g.env (g.isatty it.target) != g.isatty it.target)
+
+def otherTarget : Target → Target
+  | .stdout => .stderr
+  | .stderr => .stdout
+
+/-- the plain text stream `t` carries when "is this appender's target a terminal" is answered by
+`answer` (the statement: `fun it => g.isatty it.target`) -/
+def streamTextIf (_g : Global) (items : List PlanItem) (levels : List Nat) (cs : Nat → Chunks)
+    (answer : PlanItem → Bool) (t : Target) : Bytes :=
+  (items.filter fun it => it.target == t && shouldWrite (answer it) it.ttyOnly).flatMap fun _ =>
+    levels.flatMap fun l => plainText (cs l)
+
+/-- the tokens stream `t` carries when the colour decision for it is `colour` -/
+def streamToksIf (g : Global) (items : List PlanItem) (levels : List Nat) (cs : Nat → Chunks)
+    (colour : Bool) (t : Target) : List Tok :=
+  (items.filter fun it => it.target == t && shouldWrite (g.isatty t) it.ttyOnly).flatMap fun _ =>
+    levels.flatMap fun l => specToks colour l (cs l)
+
+/-- the tokens one stream must carry -/
+def expectedStreamToks (g : Global) (items : List PlanItem) (levels : List Nat) (cs : Nat → Chunks)
+    (t : Target) : List Tok :=
+  streamToksIf g items levels cs (colourEnabled g.env (g.isatty t)) t
+
+/-- does the plan put appenders on both streams while the streams differ in terminal status and
+the colour decision is left to the terminal test? -/
+def leakRegion (g : Global) (items : List PlanItem) : Bool :=
+  g.ttyOut != g.ttyErr && items.any (·.target == .stdout) && items.any (·.target == .stderr) &&
+    (colourEnabled g.env true != colourEnabled g.env false)
+
+/-- signature of a (W) failure: which wrong question do the observed texts answer? -/
+def wSig (g : Global) (items : List PlanItem) (levels : List Nat) (cs : Nat → Chunks)
+    (textOut textErr : Bytes) : String :=
+  let agrees (answer : PlanItem → Bool) : Bool :=
+    textOut == streamTextIf g items levels cs answer .stdout &&
+    textErr == streamTextIf g items levels cs answer .stderr
+  let ownOk := agrees (fun it => g.isatty it.target)
+  if !ownOk && (agrees (fun it => g.isatty (otherTarget it.target)) ||
+      agrees (fun _ => g.ttyOut) || agrees (fun _ => g.ttyErr)) then "C18/tty-only-wrong-stream"
+  else if agrees (fun it => colourEnabled g.env (g.isatty it.target)) then "C18/tty-only-keyed-on-colour-mode"
+  else if items.any (itemF2Region g) then "C18/tty-only-keyed-on-colour-mode"
+  else if g.ttyOut != g.ttyErr && items.any (·.ttyOnly) then "C18/tty-only-wrong-stream"
+  else "C18/tty-only"
+
+/-- colour clause for one stream whose text is right -/
+def planColourVerdict (g : Global) (items : List PlanItem) (levels : List Nat) (cs : Nat → Chunks)
+    (t : Target) (toks : List Tok) : Verdict :=
+  let colour := colourEnabled g.env (g.isatty t)
+  if toks == expectedStreamToks g items levels cs t then .ok
+  else
+    let clause :=
+      if !colour && !(sgrToks toks).isEmpty then ("C: escape sequences although colour is disabled for this stream", "C18/console-escapes-while-disabled")
+      else if colour && (sgrToks toks).isEmpty then ("C: no escape sequences although colour is enabled for this stream", "C18/console-no-escapes-while-enabled")
+      else ("H: styles/resets differ from one style per highlighted group followed by a reset", "C18/console-highlight")
+    let otherColour := colourEnabled g.env (g.isatty (otherTarget t))
+    let leaks := (otherColour != colour && toks == streamToksIf g items levels cs otherColour t) || leakRegion g items
+    .fail clause.1 (if leaks then "C18/colour-decision-leaks-between-streams" else clause.2)
+
 /-- the child process: exit code, stdout bytes, stderr bytes -/
-def consoleVerdict (s : Setup) (levels : List Nat) (cs : Nat → Chunks)
+def planVerdict (g : Global) (items : List PlanItem) (levels : List Nat) (cs : Nat → Chunks)
     (rc : Nat) (out err : Bytes) : Verdict :=
-  let (tgt, other) := match s.target with
-    | .stdout => (out, err)
-    | .stderr => (err, out)
-  let ttySig := if f2Region s then "C18/tty-only-keyed-on-colour-mode" else "C18/tty-only"
-  if rc != 0 then .fail "the appender failed or panicked" "C18/console-failed"
-  else if !other.isEmpty then .fail "W: bytes on the stream that was not chosen" "C18/console-other-stream"
-  else if !shouldWrite s.targetIsatty s.ttyOnly then
-    if tgt.isEmpty then .ok
-    else .fail "W: a tty_only appender wrote although its target is not a terminal" ttySig
-  else if tgt.isEmpty then
-    .fail "W: the appender is silent although it must write" ttySig
-  else streamVerdict (colourEnabled s.env s.targetIsatty) levels cs tgt "C18/console-"
+  if rc != 0 then .fail "an appender failed or panicked" "C18/console-failed"
+  else match scan out, scan err with
+    | some toksOut, some toksErr =>
+      let own : PlanItem → Bool := fun it => g.isatty it.target
+      let textOut := literalBytes toksOut
+      let textErr := literalBytes toksErr
+      if textOut != streamTextIf g items levels cs own .stdout || textErr != streamTextIf g items levels cs own .stderr then
+        .fail "W: a stream does not carry the text of exactly the appenders that target it and must write (a tty_only appender wrote to a non-terminal, an appender that must write is silent, or text went to the other stream)"
+          (wSig g items levels cs textOut textErr)
+      else match planColourVerdict g items levels cs .stdout toksOut with
+        | .ok => planColourVerdict g items levels cs .stderr toksErr
+        | v => v
+    | _, _ => .fail "S: the output contains an escape sequence outside the SGR grammar" "C18/console-malformed-escape"
 
 end Log4rs.Console.Spec
